@@ -98,6 +98,9 @@ pub enum Tok {
     Eof,
     Fault(usize),
     Deadlock,
+    /// the library made far more transport calls than the stream can justify
+    /// (it loops without consuming input); the link is cut to end the run
+    CallBudget,
 }
 
 #[derive(Clone, Debug, Default)]
@@ -251,12 +254,17 @@ pub struct SimTransport<'a> {
     zero_room: bool,
     /// after a reconnect the controller no longer waits for answers lost with the old link
     gates_on: bool,
+    over_budget: bool,
 }
 
 impl SimTransport<'_> {
     fn fault_here(&mut self) -> Option<Tok> {
         let idx = self.calls;
         self.calls += 1;
+        if self.calls > 8 * self.ex.stream.len() + 4 * self.ex.chunks.len() + 256 {
+            self.over_budget = true;
+            return Some(Tok::CallBudget);
+        }
         if self.fault_armed && self.ex.fault_at == Some(idx) {
             self.fault_armed = false;
             Some(Tok::Fault(idx))
@@ -525,6 +533,7 @@ pub fn drive<I: SimIface, const N: usize>(ex: &Exec) -> Out {
                     idle: idle.clone(),
                     zero_room: false,
                     gates_on: true,
+                    over_budget: false,
                 };
                 let mut cancel = ex.cancel_at;
                 let mut call_no = 0u32;
@@ -573,6 +582,9 @@ pub fn drive<I: SimIface, const N: usize>(ex: &Exec) -> Out {
                 }
                 out.tcalls = tr.calls;
                 out.zero_room_read = tr.zero_room;
+                if tr.over_budget {
+                    out.spin = true;
+                }
             }
         }
     }));
